@@ -172,9 +172,12 @@ def truncated_native():
 
 
 EXTREMES = {
-    2: [b'\x7f\xff', b'\x80\x00', b'\xff\xfe'],
-    4: [b'\x7f\xff\xff\xff', b'\x80\x00\x00\x00', b'\xff\xff\xff\xfe', b'\x00\x01\x00\x00'],
-    8: [b'\x7f' + 7 * b'\xff', b'\x80' + 7 * b'\x00', 7 * b'\xff' + b'\xfe', b'\x00\x00\x01' + 5 * b'\x00',
+    1: [b'\x00', b'\x01', b'\x7f', b'\x80', b'\xfe', b'\xff'],
+    2: [b'\x00\x00', b'\x7f\xff', b'\x80\x00', b'\xff\xfe', b'\xff\xff'],
+    4: [b'\x00\x00\x00\x00', b'\x7f\xff\xff\xff', b'\x80\x00\x00\x00', b'\xff\xff\xff\xfe', b'\xff\xff\xff\xff',
+        b'\x00\x01\x00\x00'],
+    8: [8 * b'\x00', b'\x7f' + 7 * b'\xff', b'\x80' + 7 * b'\x00', 7 * b'\xff' + b'\xfe', 8 * b'\xff',
+        b'\x00\x00\x01' + 5 * b'\x00',
         b'\x00\x00\x00\x01\x00\x00\x00\x00'],
 }
 
@@ -188,7 +191,7 @@ def _extreme_one(job):
     if not accepted:
         return []
     data = min(accepted, key=lambda item: (len(item), item))
-    if not 2 <= len(data) <= 400:
+    if not 1 <= len(data) <= 400:
         return []
     if mode == 'rt' and not hasattr(cls.parse_exact_size(data), 'compose'):
         return []
@@ -327,8 +330,8 @@ def window_shards(mode, tier, seed_value, per_seed=2, timeout=15, tag='w'):  # p
                             pos, pos + 1, len(data)),
                         group='%s2/%s' % (tag, short)))
     out.append(Shard(MOD, 'extreme_fields', '%s-extremes' % tag, {'MODE': mode}, kind='concrete',
-                     bounds='every 2-, 4- and 8-byte field position of the shortest accepted vector of every seeded class '
-                            'set to 7f..ff, 80..00, ff..fe, 00..0100..00 (natively)'))
+                     bounds='every 1-, 2-, 4- and 8-byte field position of the shortest accepted vector of every seeded '
+                            'class set to 00..00, 7f..ff, 80..00, ff..fe, ff..ff, 00..0100..00 (natively)'))
     if mode in ('c02', 'c03'):
         out.append(Shard(MOD, 'truncated_native', '%s-trunc' % tag, {'MODE': mode, 'TIER': tier}, kind='concrete',
                          bounds='every proper prefix of the shortest accepted vector(s) of every seeded class (natively)'))
